@@ -16,8 +16,14 @@ static bool ref_unhex(const uint8_t *s, size_t len, std::vector<uint8_t> &out) {
 
 static void hex_roundtrip_one(const uint8_t *x, size_t n) {
   C.states++; const ShowIn si(x, n);
-  static const char *delims[3] = {"", " ", ":"};
-  for (int up = 0; up < 2; up++) for (int di = 0; di < 3; di++) {
+  // delimiters: none, one character, and the multi-character forms string.h names (", " and ": "; the encoder inserts the whole
+  // string, the decoder treats it as a character SET) - decode(encode(x, delim), delim) == x for each of them
+  static const char *delims[5] = {"", " ", ":", ", ", ": "};
+  { C.transitions++; Ex in(x, n); std::string e0, e1;               // default arguments: lower case, delimiter " " (string.h)
+    { Guard g("hex.RawDataToHexStr(defaults)", x, n); e0 = RawDataToHexStr(in.p, (uint16_t)n); e1 = RawDataToHexStr(in.p, (uint16_t)n, true); C.executions++;
+      if (g.hit()) viol(generic_san_sig("hex-encode"), si + " " + Guard::desc()); }
+    if (e0 != ref_hex(x, n, false, " ") || e1 != ref_hex(x, n, true, " ")) viol("hex-encode-default-arguments-content", si + " got=" + e0 + " / " + e1); }
+  for (int up = 0; up < 2; up++) for (int di = 0; di < 5; di++) {
     C.transitions++;
     const std::string delim = delims[di], ref = ref_hex(x, n, up, delim);
     Ex in(x, n); std::string enc;
@@ -38,12 +44,12 @@ static void hex_roundtrip_one(const uint8_t *x, size_t n) {
     }
     { C.transitions++; std::vector<uint8_t> v; v.push_back(0xEE); size_t r = 0; std::string what;
       Guard g("hex.HexStrToRawData(vec)", (const uint8_t *)ref.data(), ref.size());
-      try { r = HexStrToRawData(ref, v, delim); } catch (std::exception &e) { what = std::string("threw:") + e.what(); } catch (...) { what = "threw:?"; }
+      try { r = di == 0 && up ? HexStrToRawData(ref, v) /* default delimiter argument = none */ : HexStrToRawData(ref, v, delim); } catch (std::exception &e) { what = std::string("threw:") + e.what(); } catch (...) { what = "threw:?"; }
       if (g.hit()) viol(generic_san_sig("hex-decode-vec"), "hex=\"" + ref + "\" delim='" + delim + "' " + Guard::desc());
       if (!what.empty()) viol(n == 0 && di == 0 ? "hex-decode-vector-empty-string-throws" : "hex-roundtrip-vec-throws", si + " hex=\"" + ref + "\" delim='" + delim + "' " + what);
       else if (r != n || v.size() != n || (n && memcmp(v.data(), x, n) != 0)) viol("hex-roundtrip-vec", si + " hex=\"" + ref + "\" delim='" + delim + "' ret=" + std::to_string(r)); }
   }
-  if (interesting_sample(x, n)) sample_force("hex round trip " + si + " upper/lower x delim{'',' ',':'} buf caps{exact,exact-1,0} + vector");
+  if (interesting_sample(x, n)) sample_force("hex round trip " + si + " upper/lower x delim{'',' ',':',', ',': '} + default arguments, buf caps{exact,exact-1,0} + vector");
 }
 static void hex_hostile_one(const uint8_t *s, size_t len) {
   if (out_of_time()) return;
@@ -67,7 +73,19 @@ static void hex_hostile_one(const uint8_t *s, size_t len) {
     if (!valid && di == 0) outcome(threw ? "hex.HexStrToRawData(vec): invalid input -> exception" : "hex.HexStrToRawData(vec): invalid input accepted leniently");
   }
 }
-void sweep_hex_rt() { for_enc_inputs(hex_roundtrip_one); }
+void sweep_hex_rt() {
+  for_enc_inputs(hex_roundtrip_one);
+  // the length parameters are uint16_t: the largest expressible sizes, and a hex string longer than the largest capacity
+  if (g_part == 0 && !out_of_time()) {
+    for (int p = 2; p < kPatterns; p += 3) for (size_t L : {(size_t)65534, (size_t)65535}) { std::vector<uint8_t> v = pattern(p, L); hex_roundtrip_one(v.data(), L); }
+    std::vector<uint8_t> v = pattern(2, 65537); C.states++; C.transitions++; const std::string hex = ref_hex(v.data(), v.size(), false, "");
+    Ex out(65535); size_t r = 0; bool threw = false; Guard g("hex.HexStrToRawData(buf)", nullptr, 0, 65535);
+    try { r = HexStrToRawData(hex, out.p, (uint16_t)65535); } catch (...) { threw = true; }
+    if (g.hit()) viol(generic_san_sig("hex-decode-buf") + "-short-capacity", "hex string of 131074 digits, cap=65535 " + Guard::desc());
+    if (threw || r != 65535 || memcmp(out.p, v.data(), 65535) != 0) viol("hex-roundtrip-buf", "hex string of 131074 digits, cap=65535 ret=" + std::to_string(r) + (threw ? " threw" : ""));
+    sample("hex round trip of 65534 / 65535 bytes (uint16_t length limit) and a 131074-digit string into capacity 65535");
+  }
+}
 // D_dec(hex) = all strings of length 0..2 over 0..255, length 3 over A40 [thorough: all 256 values], [thorough: length 4 over A40],
 // + truncations / A20 substitutions of the valid encodings (delimiter "" and " ") of patterned inputs of length 1..40
 void sweep_hex_dec() {
